@@ -85,10 +85,34 @@ pub fn gen_map(rng: &mut Rng, t: &str, zero_width_eol: bool, content_for: &dyn F
   // fixed policy: whether a file has content depends on its name only (s2.js never has), so a name shared by several maps carries the same content everywhere
   let contents = if fixed { sources.iter().take(2).map(|s| content_for(s)).collect() } else if with_content { sources.iter().map(|s| content_for(s)).collect() } else { vec![] };
   let root = match rng.below(6) { 0 => Some("".to_string()), 1 => Some("r".to_string()), 2 => Some("r/".to_string()), _ => None };
-  SMapT { mappings: encode_mappings(ms.into_iter()), sources, contents, names, file: if rng.chance(2) { Some("x".into()) } else { None }, root, debug_id: None }
+  SMapT { mappings: encode_any(rng, ms), sources, contents, names, file: if rng.chance(2) { Some("x".into()) } else { None }, root, debug_id: None }
 }
 
 thread_local! { pub static FIXED_CONTENT_POLICY: std::cell::Cell<bool> = std::cell::Cell::new(false); }
+/// a plain source-map v3 encoder that writes EVERY segment (the crate's encoder drops leading 1-field segments and repeats,
+/// so maps it produced never start a line with an unmapped segment)
+pub fn raw_encode(ms: &[Mapping]) -> String {
+  const ALPHA: &[u8] = b"ABCDEFGHIJKLMNOPQRSTUVWXYZabcdefghijklmnopqrstuvwxyz0123456789+/";
+  fn vlq(out: &mut String, v: i64) { let mut n: u64 = if v < 0 { (((-v) as u64) << 1) | 1 } else { (v as u64) << 1 }; loop { let mut d = (n & 31) as u8; n >>= 5; if n > 0 { d |= 32; } out.push(ALPHA[d as usize] as char); if n == 0 { break } } }
+  let mut out = String::new();
+  let (mut line, mut gc, mut src, mut ol, mut oc, mut name) = (1u32, 0i64, 0i64, 1i64, 0i64, 0i64);
+  let mut first = true;
+  for m in ms {
+    while line < m.generated_line { out.push(';'); line += 1; gc = 0; first = true; }
+    if !first { out.push(','); }
+    first = false;
+    vlq(&mut out, m.generated_column as i64 - gc); gc = m.generated_column as i64;
+    if let Some(o) = &m.original {
+      vlq(&mut out, o.source_index as i64 - src); src = o.source_index as i64;
+      vlq(&mut out, o.original_line as i64 - ol); ol = o.original_line as i64;
+      vlq(&mut out, o.original_column as i64 - oc); oc = o.original_column as i64;
+      if let Some(n) = o.name_index { vlq(&mut out, n as i64 - name); name = n as i64; }
+    }
+  }
+  out
+}
+pub fn encode_any(rng: &mut Rng, ms: Vec<Mapping>) -> String { if rng.chance(2) { raw_encode(&ms) } else { encode_mappings(ms.into_iter()) } }
+
 pub fn default_content(s: &str) -> String { format!("content of {s}\nline2 abc;\nline3\nline4\n") }
 
 /// sorted (or not) segments anywhere, indices possibly outside the tables
@@ -110,7 +134,7 @@ pub fn gen_wild_map(rng: &mut Rng, sorted: bool) -> SMapT {
     ms.push(Mapping { generated_line: gl, generated_column: gc, original: orig });
   }
   let contents = if rng.chance(2) { sources.iter().map(|s| default_content(s)).collect() } else { vec![] };
-  SMapT { mappings: encode_mappings(ms.into_iter()), sources, contents, names, file: None, root: None, debug_id: None }
+  SMapT { mappings: encode_any(rng, ms), sources, contents, names, file: None, root: None, debug_id: None }
 }
 
 pub fn gen_any_map(rng: &mut Rng, cfg: &GenCfg, t: &str) -> (SMapT, MapClass) {
